@@ -145,6 +145,36 @@ def trace_cases(gw, scratch):
     return out
 
 
+def repeat_cases(gw, scratch):
+    """the same function / module / source string executed several times on one gateway: every execution runs the given code afresh
+    (state created when the code is defined or first run - a mutable default, a module-level name - does not leak into the next one)"""
+    out = []
+    path = os.path.join(scratch, "repeatfn.py")
+    open(path, "w").write("def f(channel, seen=[]):\n    seen.append(1)\n    channel.send(len(seen))\n\n"
+                          "def g(channel, n, acc={}):\n    acc[n] = acc.get(n, 0) + 1\n    channel.send(sorted(acc.items()))\n")
+    mod = load_module(path, "repeatfn")
+    mpath = os.path.join(scratch, "repeatmod.py")
+    open(mpath, "w").write("counter = []\nif __name__ == '__channelexec__':\n    counter.append(1)\n    channel.send(len(counter))\n")
+    mmod = load_module(mpath, "repeatmod")
+    src = "try:\n    runs\nexcept NameError:\n    runs = 0\nruns += 1\nchannel.send(runs)"
+    for target, kws, want in ((mod.f, [{}, {}, {}], [1, 1, 1]), (mod.g, [{"n": 1}, {"n": 2}, {"n": 1}], [[(1, 1)], [(2, 1)], [(1, 1)]]),
+                              (mmod, [{}, {}, {}], [1, 1, 1]), (src, [{}, {}, {}], [1, 1, 1])):
+        c = {"k": "repeat", "ok": False}
+        try:
+            got = []
+            for kw in kws:
+                ch = gw.remote_exec(target, **kw)
+                x = ch.receive(10)
+                got.append([tuple(i) for i in x] if isinstance(x, list) else x)
+                ch.waitclose(10)
+            c["ok"] = got == want
+            c["got"] = repr(got)
+        except Exception as e:  # noqa: BLE001
+            c["err"] = type(e).__name__
+        out.append(c)
+    return out
+
+
 def stdio_cases(gw, rng, quick):
     out = []
     sizes = [0, 1, 4095, 4096, 65536, 300000] + ([] if quick else [1000000, 5000000])
@@ -241,6 +271,7 @@ def run(ctx):
                 cases.append(shape_case(gw, sh, f"{kind}{em}{i}", ctx.scratch))
             cases += trace_cases(gw, ctx.scratch)
             cases += close_cases(gw)
+            cases += repeat_cases(gw, ctx.scratch)
             cases += stdio_cases(gw, rng, ctx.quick)
         finally:
             group.terminate(timeout=3)
